@@ -945,17 +945,27 @@ class VTF:
             file.write(data)
 
         depth_seq = self._depth_range()
+        if VTFFlags.ENVMAP in self.flags:
+            # The faces present depend on the version being written, which may have been overridden.
+            depth_seq = CUBES if version_minor >= 5 else CUBES_WITH_SPHERE
 
         if version_minor >= 3:
             deferred.set_data('high_res', file.tell())
         for data_mipmap in reversed(range(self.mipmap_count)):
             for frame_ind in range(self.frame_count):
                 for depth_or_cube in depth_seq:
-                    frame = self._frames[
-                        frame_ind,
-                        depth_or_cube,
-                        data_mipmap,
-                    ]
+                    try:
+                        frame = self._frames[
+                            frame_ind,
+                            depth_or_cube,
+                            data_mipmap,
+                        ]
+                    except KeyError:
+                        if depth_or_cube is not CubeSide.SPHERE:
+                            raise
+                        # A 7.5 cubemap saved as an older version has no sphere map, write a blank one.
+                        front = self._frames[frame_ind, CubeSide.FRONT, data_mipmap]
+                        frame = Frame(front.width, front.height)
                     frame.load()
                     data = bytearray(self.format.frame_size(frame.width, frame.height))
                     if frame._data is not None:
